@@ -48,6 +48,7 @@ func recvOrRet(r abs.Result, field string) (abs.Value, bool) {
 }
 
 func runC11(c *Ctx) {
+	checkFreshResult(c, "C11.enc", "aac", "(*ADTSImpl).Encode", 0)
 	R := c.R
 	R.Require("C11.enc", 5)
 	R.Require("C11.dec", 6)
